@@ -13,7 +13,8 @@ Model ↔ Rust (Model/Descriptor.lean, Model/Keys.lean):
   encode (.sortedMulti ..), sortKeys ↔ Terminal::encode + Threshold::into_sorted_bip67 (stable sort)
   KDesc.{atDerivationIndex, deriveAtIndex, intoDefinite, derivedDescriptor,
          findDerivationIndexForSpk, intoSingleDescriptors} ↔ the methods of the same names
-Specification: Spec/Outputs.lean (byte templates), Spec/Bip32.lean, Spec/KeyExpr.lean
+Specification: Spec/Outputs.lean (byte templates), Spec/Address.lean + Spec/Base58.lean +
+  Spec/Bech32m.lean (address strings), Spec/Bip341.lean (tagged hashes), Spec/Bip32.lean, Spec/KeyExpr.lean
   (`keyAt`: the key a key expression denotes at index i; `selectPath`: BIP389 alternative j).
 
 Both former findings are fixed in /repo and the theorems are at full strength: sortedmulti
@@ -24,6 +25,9 @@ import MsVerif.Lemmas.SortKeys
 import MsVerif.Lemmas.OutputsSer
 import MsVerif.Lemmas.DescKeys
 import MsVerif.Lemmas.SortedAnywhere
+import MsVerif.Lemmas.AddressLegacy
+import MsVerif.Lemmas.TrLink
+import MsVerif.Thm.C15
 
 namespace MsVerif.C16
 open MsVerif MsVerif.Script MsVerif.Outputs MsVerif.Desc MsVerif.Keys MsVerif.Bip32 MsVerif.KeyExpr
@@ -154,6 +158,149 @@ theorem script_code_vs_explicit (P : Params) (d : Desc) :
 example : (Desc.sh (.wpkh 7)).unsignedScriptSig ⟨⟨fun _ => List.replicate 32 0, fun _ => List.replicate 20 7⟩,
     ⟨fun _ => [2], fun _ => [], fun _ => [], fun _ => [], fun _ _ => []⟩, fun _ _ => []⟩
     = 0x16 :: 0x00 :: 0x14 :: List.replicate 20 7 := by decide
+
+/-! ## T1 — address STRINGS on every network, and the real hash functions -/
+
+/-- the hypothesis `Hashes.WellSized` of T1 holds for the real SHA256 / HASH160 (Spec/Hash.lean) -/
+theorem real_hashes_well_sized : (⟨Hash.sha256, Hash.hash160⟩ : Hashes).WellSized :=
+  ⟨Address.sha256_length, Address.hash160_length⟩
+
+/-- T1: on every network (mainnet, testnet3, testnet4, signet, regtest) the address string
+`Descriptor::address(net).to_string()` is the standard address of the output the descriptor
+commits to: Base58Check with the network's version byte for pkh / sh / sh(wpkh) / sh(wsh),
+Bech32 (v0) for wpkh / wsh, Bech32m (v1) for tr, none for bare -/
+theorem address_string_is_standard (P : Params) (hH : P.H.WellSized) (net : Network) (d : Desc) :
+    d.addressString P net = Address.addressOfOutput P.H net.toSpec (d.toOutput P) := by
+  cases d with
+  | sh inner =>
+    cases inner with
+    | ms ms => rfl
+    | wpkh pk =>
+      simp only [Desc.addressString, Desc.address, shAddress, wpkhScriptPubkey, wpkhAddress,
+        Payload.scriptPubkey, Option.map_some, Payload.toString, Desc.toOutput,
+        Address.addressOfOutput, ser_witness0_20 _ (hH.hash160_len _)]
+    | wsh ms =>
+      simp only [Desc.addressString, Desc.address, shAddress, wshScriptPubkey, toP2wsh,
+        wshInnerScript, Option.map_some, Payload.toString, Desc.toOutput,
+        Address.addressOfOutput, ser_witness0_32 _ (hH.sha256_len _)]
+  | _ => rfl
+
+/-- T1: every legacy address string DECODES (Base58 alphabet, checksum = first four bytes of
+SHA256d, version byte) to the network class, the kind and a 20-byte hash whose standard template
+is the descriptor's scriptPubKey — string, payload and scriptPubKey agree on every network -/
+theorem legacy_address_roundtrip (P : Params) (hH : P.H.WellSized) (hk : TrKeySized P)
+    (net : Network) (d : Desc) :
+    match d.toOutput P with
+    | .pkh _ => ∃ s h, d.addressString P net = some s ∧
+        Address.decodeLegacy s = some (net.toSpec.cls, .p2pkh, h) ∧ d.scriptPubkey P = p2pkh h
+    | .sh _ | .shWpkh _ | .shWsh _ => ∃ s h, d.addressString P net = some s ∧
+        Address.decodeLegacy s = some (net.toSpec.cls, .p2sh, h) ∧ d.scriptPubkey P = p2sh h
+    | _ => True := by
+  have hs := address_string_is_standard P hH net d
+  have hspk := spk_is_template P hH hk d
+  revert hs hspk
+  cases d with
+  | sh inner =>
+    cases inner <;>
+      (simp only [Desc.toOutput, Address.addressOfOutput, Output.scriptPubKey]
+       intro hs hspk
+       exact ⟨_, _, hs, Address.decodeLegacy_p2sh _ _ (hH.hash160_len _), hspk⟩)
+  | pkh pk =>
+    simp only [Desc.toOutput, Address.addressOfOutput, Output.scriptPubKey]
+    intro hs hspk
+    exact ⟨_, _, hs, Address.decodeLegacy_p2pkh _ _ (hH.hash160_len _), hspk⟩
+  | _ => simp [Desc.toOutput]
+
+/-- the corresponding statement for segwit addresses — the Bech32 / Bech32m string of every
+witness program decodes back (`Address.decodeSegwit`: charset, checksum, regrouping, padding) —
+is OPEN as a theorem: it needs the BCH linearity of `polymod` (the checksum of an own encoding
+verifies) and the inverse of the 8↔5 bit regrouping.  It is checked by `#guard` on the BIP173 /
+BIP350 vectors and on all five networks (Spec/Address.lean), and on every run the library's
+address strings are decoded by the Lean decoder (`J addrspec`). -/
+def segwit_address_roundtrip_full : Prop :=
+  ∀ (net : Address.Net) (witver : Nat) (prog : List UInt8), witver ≤ 16 →
+    (2 ≤ prog.length ∧ prog.length ≤ 40) → (witver = 0 → prog.length = 20 ∨ prog.length = 32) →
+    Address.decodeSegwit (Address.segwitString net witver prog) = some (net.hrp, witver, prog)
+
+/-! ## T1 — taproot: the scriptPubKey commits to the Merkle root of C15 -/
+
+/-- T1/tr: for every tap tree `t` of miniscripts the scriptPubKey of `tr(ik, t)` is
+`51 20 ‖ tweak(ik, root)` where `root` is the BIP341 Merkle root — real tagged SHA-256
+(`Bip341.alg`) — of the tree of the leaves' scripts, exactly the root property C15 proves
+`TrSpendInfo::from_tr` to compute; for `tr(ik)` it is the tweak by no root.  The elliptic-curve
+tweak is the only oracle (`hP`: the output key parameter is `spend_info().output_key()` of the
+C15 model; `hk`: x-only keys are 32 bytes). -/
+theorem tr_spk_commits_to_merkle_root (P : Params) (tweak : Bytes → Option Bytes → Bytes)
+    (hP : P.TrKeyFromSpendInfo Bip341.alg tweak) (hk : ∀ ik r, (tweak ik r).length = 32)
+    (ik : Key) (t : Spec.Tree Ms) :
+    (Desc.tr ik (Spec.Tree.depths t)).scriptPubkey P =
+      p2tr (tweak (P.env.ser ik)
+        (some (Spec.Tree.root Bip341.alg (treeMap (encodeBytes P.env .tap) t)))) ∧
+    (Desc.tr ik []).scriptPubkey P = p2tr (tweak (P.env.ser ik) none) := by
+  constructor
+  · have h := (C15.outputKey_commits Bip341.alg tweak (P.env.ser ik)
+      (treeMap (encodeBytes P.env .tap) t)).1
+    rw [← trLeafScripts_depths] at h
+    cases hsi : Tap.SpendInfo.fromTr Bip341.alg tweak (P.env.ser ik)
+        (some (trLeafScripts P (Spec.Tree.depths t))) with
+    | none => rw [hsi] at h; cases h
+    | some si =>
+      rw [hsi] at h
+      simp only [Option.map_some, Option.some.injEq] at h
+      have := hP ik (Spec.Tree.depths t) si (by
+        simp only [trSpendInfo, depths_isEmpty, Bool.false_eq_true, if_false]; exact hsi)
+      simp only [Desc.scriptPubkey, trScriptPubkey, this, h]
+      exact ser_witness1_32 _ (hk _ _)
+  · have h := (C15.outputKey_commits Bip341.alg tweak (P.env.ser ik)
+      (Spec.Tree.leaf ([] : Bytes))).2
+    cases hsi : Tap.SpendInfo.fromTr Bip341.alg tweak (P.env.ser ik)
+        (none : Option (Tap.TapTree Bytes)) with
+    | none => rw [hsi] at h; cases h
+    | some si =>
+      rw [hsi] at h
+      simp only [Option.map_some, Option.some.injEq] at h
+      have := hP ik [] si (by simpa [trSpendInfo] using hsi)
+      simp only [trLeafScripts, List.map_nil] at this
+      simp only [Desc.scriptPubkey, trScriptPubkey, trLeafScripts, List.map_nil, this, h]
+      exact ser_witness1_32 _ (hk _ _)
+
+/-- T1/tr: scriptPubKey, script tree and control blocks agree with each other: for a tree of
+height ≤ 128, every control block the spend info yields (C15) makes BIP341's script-path
+computation arrive at the SAME root the scriptPubKey's output key is tweaked with -/
+theorem tr_spk_and_control_blocks_agree (P : Params) (tweak : Bytes → Option Bytes → Bytes)
+    (hP : P.TrKeyFromSpendInfo Bip341.alg tweak) (hk : ∀ ik r, (tweak ik r).length = 32)
+    (ik : Key) (t : Spec.Tree Ms) (ht : Spec.Tree.height t ≤ 128) :
+    ∃ root items,
+      (Desc.tr ik (Spec.Tree.depths t)).scriptPubkey P = p2tr (tweak (P.env.ser ik) (some root)) ∧
+      Tap.spendLeaves Bip341.alg (trLeafScripts P (Spec.Tree.depths t)) = some items ∧
+      ∀ it ∈ items, ∀ (odd : Bool) (ikb : Bytes),
+        Bip341.committedRoot ⟨Bip341.tapscriptVersion, odd, ikb, it.merkleBranch⟩ it.leaf = root := by
+  obtain ⟨items, h1, _, h3⟩ := C15.controlBlock_verifies_bip341
+    (treeMap (encodeBytes P.env .tap) t) (by rw [height_treeMap]; exact ht)
+  refine ⟨_, items, (tr_spk_commits_to_merkle_root P tweak hP hk ik t).1, ?_, ?_⟩
+  · rw [trLeafScripts_depths]; exact h1
+  · intro it hit odd ikb; exact (h3 it hit odd ikb).1
+
+/-- the hypothesis `TrKeyFromSpendInfo` is satisfiable: take the output key FROM the model -/
+example (H : Hashes) (env : KeyEnv) (tweak : Bytes → Option Bytes → Bytes) :
+    ∃ P : Params, P.H = H ∧ P.env = env ∧ P.TrKeyFromSpendInfo Bip341.alg tweak := by
+  let f : Key → List (Nat × Bytes) → Bytes := fun ik scripts =>
+    match Tap.SpendInfo.fromTr Bip341.alg tweak (env.ser ik)
+        (if scripts.isEmpty then none else some scripts) with
+    | some si => si.outputKey
+    | none => []
+  refine ⟨⟨H, env, f⟩, rfl, rfl, ?_⟩
+  intro ik leaves si hsi
+  have hemp : (trLeafScripts ⟨H, env, f⟩ leaves).isEmpty = leaves.isEmpty := by
+    simp [trLeafScripts]
+  simp only [trSpendInfo] at hsi
+  show f ik (trLeafScripts ⟨H, env, f⟩ leaves) = si.outputKey
+  simp only [f, hemp, hsi]
+
+/-- a two-leaf tree `{and_v(v:pk(1),older(144)), pk(2)}` of height 1 -/
+example : Spec.Tree.height (Spec.Tree.node
+    (.leaf (Ms.andV (.verify (.check (.pkK 1))) (.older 144))) (.leaf (Ms.check (.pkK 2)))) ≤ 128 := by
+  decide
 
 /-! ## T2 — sorted multisig does not depend on the listing order -/
 
@@ -425,6 +572,73 @@ example :
       (fun a => if a = 0 then some (DPK.xpub (P := Nat) none ([] : List Nat) [] .unhardened) else none)).hasWildcard
       = true := by decide
 
+/-- T3, guards spelled out: a key has a public derivation at `index` exactly when it is not a
+multipath key, has no hardened step, no hardened wildcard and — with a wildcard — `index < 2³¹` -/
+theorem key_derivable_iff_guards (ckd : X → Nat → X) (k : DPK X P) (i : Nat) :
+    (∃ r, k.atDerivationIndex i = .ok r) ↔ PubliclyDerivableAt k i := by
+  rw [atDerivationIndex_ok_iff ckd, keyAt_isSome_iff]
+
+/-- T3: the key a wildcard xpub `[origin]xpub/c₁/…/cₙ/*` (ANY origin, ANY number of steps)
+denotes at `index` is `CKDpub` folded over `c₁ … cₙ, index` — the independent BIP32 derivation
+along `path ++ [index]` -/
+theorem wildcard_xpub_is_ckd_fold (ckd : X → Nat → X) (o : Option Origin) (x : X)
+    (path : List Child) (idx : List Nat) (hidx : normalIndices path = some idx) (i : Nat)
+    (hi : i < indexLimit) :
+    keyAt ckd (DPK.xpub (P := P) o x path .unhardened) i =
+      some (.ofXpub ((idx ++ [i]).foldl ckd x)) :=
+  keyAt_wildcard_xpub ckd o x path idx hidx i hi
+
+/-- T3 for `derive_at_index` + `derived_descriptor`: whenever `derive_at_index(index)` succeeds,
+the descriptor has a wildcard, EVERY key passes the guards (no multipath key, no hardened step,
+no hardened wildcard, `index < 2³¹` for wildcard keys), the shape is unchanged, and the public
+key derived for every key is the one independent BIP32 derivation gives at the same index -/
+theorem derive_at_index_is_independent_bip32 (ckd : X → Nat → X) (d : KDesc (DPK X P)) (i : Nat)
+    (r : KDesc (DPK X P)) (h : (d.deriveAtIndex i).intoResult = .ok r) :
+    d.hasWildcard = true ∧ r.shape = d.shape ∧
+    (∀ k ∈ d.keysPre, PubliclyDerivableAt k i) ∧
+    (∀ a k, d.key a = some k → (r.key a).map (derivePublicKey ckd) = keyAt ckd k i) := by
+  have hw : d.hasWildcard = true := by
+    cases hw : d.hasWildcard with
+    | true => rfl
+    | false => rw [(derive_at_index_wildcard_gate d i).1 hw] at h; cases h
+  rw [(derive_at_index_wildcard_gate d i).2 hw] at h
+  unfold KDesc.atDerivationIndex KDesc.translate at h
+  cases hf : firstError (fun k => k.atDerivationIndex i) d.keysTranslate with
+  | some e => rw [hf] at h; cases h
+  | none =>
+    rw [hf] at h
+    cases h
+    refine ⟨hw, rfl, ?_, ?_⟩
+    · intro k hk
+      exact (key_derivable_iff_guards ckd k i).mp
+        ((firstError_none_iff _ _).mp hf k ((d.mem_keysTranslate_iff k).mpr hk))
+    · intro a k hk
+      have := atDerivationIndex_toOption ckd k i
+      simp only [hk, Option.bind_some]
+      cases hk' : k.atDerivationIndex i with
+      | ok k' => simpa [hk', Except.map, Except.toOption] using this
+      | error e => simpa [hk', Except.map, Except.toOption] using this
+
+/-- non-vacuity with an ORIGIN and a TWO-STEP path: `wsh(and_v(v:pk([f7/44h/0]X/1/2/*),pk(S5)))`.
+At index 9 the first key is `CKDpub` folded along 1, 2, 9 (here: the list of indices walked),
+the search over `5..12` for that script finds exactly index 9, and index 2³¹ is refused. -/
+example :
+    let d : KDesc (DPK (List Nat) Nat) :=
+      ⟨.wsh (.andV (.verify (.check (.pkK 0))) (.check (.pkK 1))),
+       fun a => if a = 0 then some (.xpub (some ⟨0xf7, [.hardened 44, .normal 0]⟩) [] [.normal 1, .normal 2] .unhardened)
+                else if a = 1 then some (.single none 5) else none⟩
+    let ckd : List Nat → Nat → List Nat := fun x i => x ++ [i]
+    let spk : KDesc (Derived (List Nat) Nat) → Bytes := fun c =>
+      match c.key 0 with | some (.ofXpub l) => l.map UInt8.ofNat | _ => []
+    (match d.derivedDescriptor ckd 9 with
+      | .ok r => (r.key 0, r.key 1) | .error _ => (none, none))
+        = (some (.ofXpub [1, 2, 9]), some (.single 5)) ∧
+    (match d.findDerivationIndexForSpk ckd spk [1, 2, 9] 5 12 with
+      | .ok (some (i, c)) => some (i, c.key 0) | _ => none) = some (9, some (.ofXpub [1, 2, 9])) ∧
+    (match (d.deriveAtIndex (2 ^ 31)).intoResult with
+      | .error e => some e | .ok _ => none) = some .hardenedStep := by
+  decide
+
 /-! ## T4 — multipath split -/
 
 /-- T4: a descriptor without multipath keys splits into itself -/
@@ -616,5 +830,21 @@ theorem find_without_wildcard (ckd : X → Nat → X) (spk : KDesc (Derived X P)
   unfold KDesc.findDerivationIndexForSpk
   simp only [hw, Bool.not_false, if_true]
   cases d.intoDefinite <;> rfl
+
+/-- T5 + T3: what `find_derivation_index_for_spk` returns for a wildcard descriptor is the
+descriptor over the independently BIP32-derived keys at the returned index, which lies in the
+range and below 2³¹ for every wildcard key; all guards hold for every key -/
+theorem find_match_is_independent_bip32 (ckd : X → Nat → X) (spk : KDesc (Derived X P) → Bytes)
+    (d : KDesc (DPK X P)) (hw : d.hasWildcard = true) (target : Bytes) (lo hi i : Nat)
+    (c : KDesc (Derived X P))
+    (h : d.findDerivationIndexForSpk ckd spk target lo hi = .ok (some (i, c))) :
+    lo ≤ i ∧ i < hi ∧ spk c = target ∧ c.shape = d.shape ∧
+    (∀ k ∈ d.keysPre, PubliclyDerivableAt k i) ∧
+    (∀ a k, d.key a = some k → c.key a = keyAt ckd k i) := by
+  obtain ⟨h1, h2, h3, h4, _⟩ := (find_returns_least_match ckd spk d hw target lo hi i c).mp h
+  obtain ⟨hs, hk⟩ := derived_keys_are_bip32 ckd d i c h3
+  refine ⟨h1, h2, h4, hs, ?_, hk⟩
+  intro k hk'
+  exact (keyAt_isSome_iff ckd k i).mp ((derive_succeeds_iff ckd d i).mp ⟨c, h3⟩ k hk')
 
 end MsVerif.C16
